@@ -167,7 +167,7 @@ def m_collect_result_vec(engine, st, fr, callee, args, ops):
         if len(res) != 1:
             raise mir.Unsupported("collect: the mapping closure forks (%d paths)" % len(res))
         v = res[0].value
-        if not (isinstance(v, sym.Adt) and v.ty == "Result"):
+        if not (isinstance(v, sym.Adt) and v.variant in ("Ok", "Err")):
             raise mir.Unsupported("collect: image %r" % (v,))
         if v.variant == "Err":
             return v
